@@ -4,7 +4,7 @@
 # pass. Then imports it into /verif/benign/<PROP>-<k>/.
 set -u
 P=$1; K=$2
-SRC=/tmp/benign_$P/out/$K
+SRC=${BENIGN_SRC:-/tmp/benign_$P}/out/$K
 W=/tmp/vb_$P
 LOG=/tmp/vb_$P.$K.log
 : > $LOG
@@ -19,7 +19,7 @@ T=$(ctest --test-dir $W/_b -j8 --timeout 900 2>&1 | grep "tests passed" )
 echo "$T" >>$LOG
 git -C $W checkout -- .
 echo "$T" | grep -q "100% tests passed, 0 tests failed out of 126" || { res "TESTS-FAIL: $T"; exit 1; }
-D=/verif/benign/$P-$K
+D=/verif/benign/$P-${BENIGN_AS:-$K}
 mkdir -p $D
 cp $SRC/patch.diff $D/; cp $SRC/README.md $D/ 2>/dev/null
 res "CONFIRMED"
